@@ -346,6 +346,7 @@ func advProperty(t *testing.T, names []string, quick, thorough int) {
 			rec.Discarded("adv:excluded shape of open finding " + sig)
 			return
 		}
+		rec.Begin("adv", c)
 		rec.Report(rt, "adv", c, runAdv(c))
 	})
 }
